@@ -2,6 +2,7 @@ package main
 
 import (
 	"fmt"
+	"go/constant"
 	"go/token"
 	"go/types"
 	"sort"
@@ -93,7 +94,7 @@ func runC11(c *Ctx) {
 		return
 	}
 	c.Analysed(V)
-	hasPrefix := c.ExtFn("strings", "HasPrefix")
+	_ = c.ExtFn("strings", "HasPrefix")
 	svc, _ := c.ConstVal("document", "ServiceProperty")
 	pk, _ := c.ConstVal("document", "PublicKeyProperty")
 	prefixes := []string{"/" + unquote(svc), "/" + unquote(pk)}
@@ -112,18 +113,23 @@ func runC11(c *Ctx) {
 					// handled below as the error edge; here: HasPrefix on the decoded member
 					return false
 				}}
-			// Build the success-edge set manually per function through a custom GCheck using MatchCall with BoolFalse for HasPrefix
-			hp := &GCheck{Name: chk.Name, BoolFalse: true, MatchCall: func(c *Ctx, call *ssa.Call, env Env) bool {
-				if call.Call.StaticCallee() != hasPrefix {
-					return false
-				}
-				if c.Path(call.Call.Args[1], env) != fmt.Sprintf("%q", P) {
-					return false
-				}
-				// arg0 = the string decoded from member K (possibly handed down through helper parameters)
-				a0 := c.Path(call.Call.Args[0], env)
-				return strings.HasPrefix(a0, "decoded(") && memberOf(a0, K)
-			}}
+			// success edges: any test whose outcome shows that the decoded member does not start with P — a prefix test
+			// (HasPrefix, or the ok of CutPrefix) against P or a prefix of P answering false, or the member being empty
+			isDecodedK := func(a string) bool { return strings.HasPrefix(a, "decoded(") && memberOf(a, K) }
+			hp := anyOf(chk.Name,
+				&GCheck{Name: "HasPrefix(member, P) false", BoolFalse: true, MatchCall: func(c *Ctx, call *ssa.Call, env Env) bool {
+					a0, pre, ok := c.prefixTest(call, env)
+					return ok && pre != "" && strings.HasPrefix(P, pre) && isDecodedK(a0)
+				}},
+				&GCheck{Name: "CutPrefix(member, P) not found", BoolFalse: true, MatchCall: func(c *Ctx, call *ssa.Call, env Env) bool {
+					g := call.Call.StaticCallee()
+					if g == nil || g.String() != "strings.CutPrefix" {
+						return false
+					}
+					k, isK := call.Call.Args[1].(*ssa.Const)
+					return isK && k.Value != nil && k.Value.Kind() == constant.String && constant.StringVal(k.Value) != "" && strings.HasPrefix(P, constant.StringVal(k.Value)) && isDecodedK(c.Path(call.Call.Args[0], env))
+				}},
+				cmpAccept(`member == ""`, token.EQL, isDecodedK, pathIs(`""`)))
 			c.checkPointerMember("C11.X1", V, K, P, hp, memberOf)
 		}
 	}
@@ -149,7 +155,12 @@ func runC11(c *Ctx) {
 				isDecodedK := func(a string) bool { return strings.HasPrefix(a, "decoded(") && memberOf(a, K) }
 				chk := anyOf(fmt.Sprintf("%q pointer is empty or starts with \"/\" (or member absent/null/undecodable)", K),
 					&GCheck{Name: `HasPrefix(pointer, "/")`, MatchCall: func(c *Ctx, call *ssa.Call, env Env) bool {
-						return call.Call.StaticCallee() == hasPrefix && c.Path(call.Call.Args[1], env) == `"/"` && isDecodedK(c.Path(call.Call.Args[0], env))
+						if g := call.Call.StaticCallee(); g != nil && g.String() == "strings.CutPrefix" {
+							// rest, ok := strings.CutPrefix(pointer, "/"): ok is the same test
+							return c.Path(call.Call.Args[1], env) == `"/"` && isDecodedK(c.Path(call.Call.Args[0], env))
+						}
+						a0, pre, ok := c.prefixTest(call, env)
+						return ok && pre == "/" && isDecodedK(a0)
 					}},
 					cmpAccept(`pointer == ""`, token.EQL, isDecodedK, pathIs(`""`)))
 				c.checkPointerMember("C11.X2", V, K, "well-formed", chk, memberOf)
@@ -253,6 +264,34 @@ func runC11(c *Ctx) {
 	}
 	c.Min("C11.G1", 8)
 	c.Assume("json-patch v4.1.0 semantics: a member that is absent, null or not a JSON string yields the pointer \"unknown\", for which findObject fails; RFC 6901 escapes (~0, ~1) introduce only '~' and '/', neither of which occurs in the protected member names; findObject returns nil for the root pointer")
+}
+
+// prefixTest: call is a test "subject starts with prefix" whose true result says so: strings.HasPrefix(subject, prefix),
+// also when it is applied to the remainder a dominating successful strings.CutPrefix(subject, p0) left (the prefix is
+// then p0+prefix). Returns the subject's path and the (unquoted) prefix.
+func (c *Ctx) prefixTest(call *ssa.Call, env Env) (string, string, bool) {
+	g := call.Call.StaticCallee()
+	if g == nil || g.String() != "strings.HasPrefix" || len(call.Call.Args) != 2 {
+		return "", "", false
+	}
+	k, isK := call.Call.Args[1].(*ssa.Const)
+	if !isK || k.Value == nil || k.Value.Kind() != constant.String {
+		return "", "", false
+	}
+	pre := constant.StringVal(k.Value)
+	if ex, isEx := call.Call.Args[0].(*ssa.Extract); isEx && ex.Index == 0 {
+		if cut, isC := ex.Tuple.(*ssa.Call); isC && cut.Call.StaticCallee() != nil && cut.Call.StaticCallee().String() == "strings.CutPrefix" {
+			if k0, isK0 := cut.Call.Args[1].(*ssa.Const); isK0 && k0.Value != nil && k0.Value.Kind() == constant.String {
+				// only behind the edge on which the cut succeeded is the remainder "subject without p0"
+				behind, _, n := c.Guard(call.Parent(), env, &GCheck{Name: "CutPrefix found the prefix", NoDescend: true, MatchCall: func(c *Ctx, cl *ssa.Call, env Env) bool { return cl == cut }}, func(in ssa.Instruction) bool { return in == ssa.Instruction(call) })
+				if behind && n > 0 {
+					return c.Path(cut.Call.Args[0], env), constant.StringVal(k0.Value) + pre, true
+				}
+				return "", "", false
+			}
+		}
+	}
+	return c.Path(call.Call.Args[0], env), pre, true
 }
 
 // checkPointerMember: for-all loop obligation with the alternative success edges (absent / nil / undecodable).
